@@ -218,9 +218,12 @@ theorem streamCF_setLength (st : EncState) (d : Dict) (v : Obj) :
     streamCF st (d.set K_LENGTH v) = streamCF st d := by
   simp [streamCF, overrideFilter_setLength]
 
-theorem exempt_setLength (st : EncState) (d : Dict) (v : Obj) (c c' : Bytes) :
-    (isXrefStream (.stream (d.set K_LENGTH v) c') || metadataExempt st (.stream (d.set K_LENGTH v) c'))
-      = (isXrefStream (.stream d c) || metadataExempt st (.stream d c)) := by
-  simp [isXrefStream, metadataExempt, hasType_setLength, getType_setLength]
+theorem isXref_setLength (d : Dict) (v : Obj) (c c' : Bytes) :
+    isXrefStream (.stream (d.set K_LENGTH v) c') = isXrefStream (.stream d c) := by
+  simp [isXrefStream, hasType_setLength]
+
+theorem metadataExempt_setLength (st : EncState) (d : Dict) (v : Obj) (c c' : Bytes) :
+    metadataExempt st (.stream (d.set K_LENGTH v) c') = metadataExempt st (.stream d c) := by
+  simp [metadataExempt, getType_setLength]
 
 end Lopdf.Crypt
